@@ -35,6 +35,12 @@ R.opaque_classes.update({"Filter": F + "Filter", "Matcher": F + "Matcher", "Filt
 R.contract("re:Pattern.search", args={"self": Opq("Pattern"), "string": Str}, returns=Bool, pure=True, trusted=True,
            note="truthiness of regex.search(s): uninterpreted pure function of (pattern, s)")
 R.alias("re_search", "re:Pattern.search")
+# sibling regex APIs (a change that swaps search for match/fullmatch must not fall out of the subset): fullmatch => match => search
+R.contract("re:Pattern.match", args={"self": Opq("Pattern"), "string": Str}, returns=Bool, pure=True, trusted=True,
+           note="truthiness of regex.match(s); axiom: match(s) implies search(s)", call_ensures={"match_implies_search": "implies(result, re_search(self, string))"})
+R.alias("re_match", "re:Pattern.match")
+R.contract("re:Pattern.fullmatch", args={"self": Opq("Pattern"), "string": Str}, returns=Bool, pure=True, trusted=True,
+           note="truthiness of regex.fullmatch(s); axiom: fullmatch(s) implies match(s)", call_ensures={"fullmatch_implies_match": "implies(result, re_match(self, string))"})
 R.contract("schemathesis.schemas:BaseSchema.get_tags", args={"self": Opq("Schema"), "operation": Opq("Op")}, returns=OneOf(NoneT, Seq(Str)), trusted=True,
            effects={"tags": "result"}, note="documented tags of the operation; None when absent")
 
